@@ -166,7 +166,7 @@ func c10N1(l *core.Ledger, r *rt) {
 				}
 			}
 			for _, d := range dial {
-				m := func(o sx.Origin) bool { return o.Kind == sx.KCall && o.V == d.(ssa.Value) }
+				m := func(o sx.Origin) bool { return (o.Kind == sx.KCall || o.Kind == sx.KExtract) && o.V == d.(ssa.Value) }
 				var okEdges []sx.Edge
 				sx.AllInstrs(cf, func(_ sx.Node, in ssa.Instruction) {
 					if ifi, isIf := in.(*ssa.If); isIf && isErrNonNil(ifi, m) != 0 {
